@@ -151,12 +151,27 @@ def import_closure(roots: Sequence[str]) -> List[Path]:
     return sorted(seen.values())
 
 
+def prop_modules(prop: str, kind: str) -> List[str]:
+    """Lean modules of a property: MlodaVerif.<kind>.Cxx plus its extension modules MlodaVerif.<kind>.Cxx_<topic>
+    (kind = "Props" or "Drv").  Extension modules let a further model (e.g. the graph closure behind C01's ancestor
+    sets) live in its own files; they are built, audited and counted exactly like the main module."""
+    d = LEAN / "MlodaVerif" / kind
+    out = [f"MlodaVerif.{kind}.{prop}"] if (d / f"{prop}.lean").exists() else []
+    out += [f"MlodaVerif.{kind}.{f.stem}" for f in sorted(d.glob(f"{prop}_*.lean"))]
+    return out
+
+
+def corr_submodules(prop: str) -> List[str]:
+    d = VERIF / "harness" / "corr"
+    return [f"harness.corr.{f.stem}" for f in sorted(d.glob(f"{prop.lower()}_*.py"))]
+
+
 def grep_forbidden(prop: Optional[str] = None) -> List[str]:
     """Forbidden constructs in the Lean sources this property's theorems and driver depend on (all sources if prop is None)."""
     if prop is None:
         files = [p for p in sorted(LEAN.rglob("*.lean")) if ".lake" not in p.parts and ".audit" not in p.parts]
     else:
-        files = import_closure([f"MlodaVerif.Props.{prop}", f"MlodaVerif.Drv.{prop}"])
+        files = import_closure(prop_modules(prop, "Props") + prop_modules(prop, "Drv"))
     hits = []
     for p in files:
         for ln, line in enumerate(strip_comments(p.read_text()).splitlines(), 1):
@@ -167,12 +182,13 @@ def grep_forbidden(prop: Optional[str] = None) -> List[str]:
 
 def theorems_of(prop: str) -> Tuple[List[str], int]:
     """Names of the property theorems (declared as `theorem Cxx.name`) and number of examples."""
-    f = LEAN / "MlodaVerif" / "Props" / f"{prop}.lean"
-    if not f.exists():
-        return [], 0
-    src = strip_comments(f.read_text())
-    names = re.findall(r"^theorem\s+(" + prop + r"\.[A-Za-z0-9_'.]+)", src, flags=re.M)
-    examples = len(re.findall(r"^example\b", src, flags=re.M))
+    names: List[str] = []
+    examples = 0
+    for m in prop_modules(prop, "Props"):
+        f = LEAN / (m.replace(".", "/") + ".lean")
+        src = strip_comments(f.read_text())
+        names += re.findall(r"^theorem\s+(" + prop + r"\.[A-Za-z0-9_'.]+)", src, flags=re.M)
+        examples += len(re.findall(r"^example\b", src, flags=re.M))
     return names, examples
 
 
@@ -180,7 +196,7 @@ def audit_axioms(prop: str, names: List[str]) -> Tuple[Dict[str, List[str]], Lis
     """#print axioms for each theorem; returns (axioms per theorem, problems)."""
     if not names:
         return {}, []
-    src = f"import MlodaVerif.Props.{prop}\n" + "".join(f"#print axioms {n}\n" for n in names)
+    src = "".join(f"import {m}\n" for m in prop_modules(prop, "Props")) + "".join(f"#print axioms {n}\n" for n in names)
     tmp = LEAN / ".audit"
     tmp.mkdir(exist_ok=True)
     path = tmp / f"Audit_{prop}_{os.getpid()}.lean"
@@ -293,6 +309,14 @@ class Ctx:
         self.exhaustive = False
         self.extra: Dict[str, Any] = {}
         self.findings = load_findings(prop)
+        self._drivers: Dict[str, Lean] = {}
+
+    def driver(self, name: str) -> "Lean":
+        """Lean client of an extension driver `lean/drivers/<name>.lean` (e.g. "C01_graph"); line counts are pooled."""
+        d = self._drivers.get(name)
+        if d is None:
+            d = self._drivers[name] = Lean(name)
+        return d
 
     @property
     def quick(self) -> bool:
@@ -367,7 +391,7 @@ def write_evidence(ctx: Ctx, obligations: int, discharged: int, checker_cmd: str
         "distribution": ctx.hist,
         "axioms_per_theorem": axioms,
         "known_findings_reproduced": ctx.known_hits,
-        "lean_driver_lines": ctx.lean.lines,
+        "lean_driver_lines": (ctx.lean.lines if ctx.lean is not None else 0) + sum(d.lines for d in ctx._drivers.values()),
         "notes": ctx.notes,
     }
     cov.update(ctx.extra)
@@ -416,6 +440,7 @@ def run_check(prop: str, tier: str, replay: Optional[str]) -> int:
 
     threading.Thread(target=_watchdog, daemon=True).start()
     mod = importlib.import_module(f"harness.corr.{prop.lower()}")
+    subs = [importlib.import_module(m) for m in corr_submodules(prop)]
     ctx = Ctx(prop, tier, seed)
 
     # 1. translator
@@ -424,11 +449,11 @@ def run_check(prop: str, tier: str, replay: Optional[str]) -> int:
         ctx.note("extract.py failed: " + str(gen.get("log"))[-800:])
 
     # 2. build: models+driver first (needed by the correspondence), then this property's theorems
-    core = lake_build([f"MlodaVerif.Drv.{prop}"])
+    core = lake_build(prop_modules(prop, "Drv"))
     if not core.ok:
         # the model itself does not build (generated tables changed shape?) - cannot run the correspondence
         ctx.note("model/driver build failed")
-    props = lake_build([f"MlodaVerif.Props.{prop}"])
+    props = lake_build(prop_modules(prop, "Props"))
     names, nexamples = theorems_of(prop)
 
     # 3. audit
@@ -441,7 +466,7 @@ def run_check(prop: str, tier: str, replay: Optional[str]) -> int:
         axioms, problems = audit_axioms(prop, names)
         hard_errors += problems
         if tier == "thorough" and not os.environ.get("VERIF_SKIP_LEANCHECKER"):
-            ok, out = leanchecker([f"MlodaVerif.Props.{prop}"])
+            ok, out = leanchecker(prop_modules(prop, "Props"))
             ctx.extra["leanchecker"] = "ok" if ok else out
             if not ok:
                 hard_errors.append("leanchecker rejected Props module: " + out[-300:])
@@ -453,14 +478,18 @@ def run_check(prop: str, tier: str, replay: Optional[str]) -> int:
     # 4. correspondence + oracle on the real code
     broken: List[str] = []
     if not props.ok:
-        broken.append(f"lake build MlodaVerif.Props.{prop} failed: modules {props.failed_modules}")
+        broken.append(f"lake build {' '.join(prop_modules(prop, 'Props'))} failed: modules {props.failed_modules}")
     corr_crashed = None
     if core.ok:
         try:
             if replay:
-                mod.replay(ctx, json.loads(Path(replay).read_text()))
+                body = json.loads(Path(replay).read_text())
+                owner = next((m for m in subs if body.get("suite") in getattr(m, "SUITES", ())), mod)
+                owner.replay(ctx, body)
             else:
                 mod.run(ctx)
+                for m in subs:
+                    m.run(ctx)
         except DriverError as e:
             corr_crashed = f"driver error: {e}"
         except Exception:
@@ -503,6 +532,9 @@ def run_check(prop: str, tier: str, replay: Optional[str]) -> int:
             sctx = Ctx(prop, "thorough", seed + 1)
             try:
                 mod.search(sctx, broken)
+                for m in subs:
+                    if hasattr(m, "search"):
+                        m.search(sctx, broken)
             except Exception:
                 sctx.note("search crashed: " + traceback.format_exc()[-800:])
             ctx.evaluations += sctx.evaluations
@@ -539,10 +571,10 @@ def run_check(prop: str, tier: str, replay: Optional[str]) -> int:
         ctx,
         obligations,
         discharged,
-        f"cd lean && lake build MlodaVerif.Props.{prop} && lake env lean <#print axioms of {len(names)} theorems>; ./check {prop} --tier {tier}",
+        f"cd lean && lake build {' '.join(prop_modules(prop, 'Props'))} && lake env lean <#print axioms of {len(names)} theorems>; ./check {prop} --tier {tier}",
         axioms,
         nviol,
-        getattr(mod, "ASSUMPTIONS", []),
+        list(getattr(mod, "ASSUMPTIONS", [])) + [a for m in subs for a in getattr(m, "ASSUMPTIONS", [])],
     )
     print(f"{prop} tier={tier} seed={seed}: theorems={len(names)} examples={nexamples} suites={nsuites} evaluations={ctx.evaluations} nontrivial={len(ctx._nontrivial)} violations={nviol} wall={time.time()-ctx.t0:.1f}s")
     return rc
